@@ -152,6 +152,108 @@ def loop_bounds(F, fn):
     return sorted(out)
 
 
+FAMILY_SUFFIXES = ['_packed_field', '_field', '_circuit']
+
+
+def _norm_indices(F, fn):
+    """(set of normalised index expressions, set of constant tables referenced): usize parameters are U0, U1, .. by position, loop and
+    closure variables L<depth> by nesting depth, plain lets are looked through"""
+    from . import poly
+    from .facts import pat_binds
+    E = poly.Ev(F)
+    env = {}
+    k = 0
+    for p in fn.params:
+        for b in pat_binds(p):
+            t = fn.types[b['t']] if b.get('t') is not None else ''
+            if t == 'usize':
+                env[b['id']] = poly.sym('U%d' % k)
+                k += 1
+    out = []
+    consts = set()
+
+    def rec(n, depth, env):
+        if not isinstance(n, dict):
+            return
+        kd = n.get('k')
+        if kd == 'Def' and n['d'].split('::')[-1].replace('_', '').isupper() and (n.get('dk') or '').startswith(('AssocConst', 'Const')) and 'oseidon' in n['d']:
+            consts.add(n['d'].split('::')[-1])
+        if kd == 'For':
+            rec(n['it'], depth, env)
+            e2 = dict(env)
+            for b in pat_binds(n['p']):
+                e2[b['id']] = poly.sym('L%d' % depth)
+            rec(n['b'], depth + 1, e2)
+            return
+        if kd == 'Closure':
+            e2 = dict(env)
+            for p in n['p']:
+                for b in pat_binds(p):
+                    e2[b['id']] = poly.sym('L%d' % depth)
+            rec(n['b'], depth + 1, e2)
+            return
+        if kd == 'Let' and 'i' in n and n['p'].get('k') == 'Bind':
+            rec(n['i'], depth, env)
+            try:
+                env[n['p']['id']] = E.ev(fn, n['i'], env, 2)
+            except poly.Unknown:
+                pass
+            return
+        if kd == 'Block':
+            e2 = dict(env)
+            for s_ in n['st']:
+                rec(s_, depth, e2)
+            if 'e' in n:
+                rec(n['e'], depth, e2)
+            return
+        if kd == 'Index':
+            i = n['i']
+            if not (i.get('k') == 'Struct' and 'Range' in (i.get('d') or '')):
+                try:
+                    out.append(poly.show(E.ev(fn, i, env, 2)))
+                except poly.Unknown:
+                    out.append('?')
+        for c in kids(n):
+            rec(c, depth, env)
+    rec(fn.body, 0, env)
+    return set(out), consts
+
+
+def poseidon_families(F, ck):
+    ck.rule('R07.7', 'the field / packed / in-circuit variants of each Poseidon helper (the code behind PoseidonGate\'s three evaluators) index their state and constant tables with the same normalised expressions and use the same constant tables')
+    import collections
+    fams = collections.defaultdict(dict)
+    for fn in F.fns.values():
+        if fn.crate == 'plonky2' and fn.file.endswith('hash/poseidon.rs') and fn.body is not None and fn.owner == 'Poseidon':
+            for sf in FAMILY_SUFFIXES:
+                if fn.name.endswith(sf):
+                    fams[fn.name[:-len(sf)]][sf] = fn
+                    break
+    ncmp = 0
+    for st in sorted(fams):
+        vs = fams[st]
+        if len(vs) < 2:
+            continue
+        res = {sf: _norm_indices(F, fn) for sf, fn in vs.items()}
+        # a variant whose indices are all literals was unrolled by hand / macro: its shape is not comparable
+        sym_ = {sf: r for sf, r in res.items() if any(not x.lstrip('-').isdigit() for x in r[0]) or not r[0]}
+        if len(sym_) < 2:
+            continue
+        ref_sf = sorted(sym_)[0]
+        for sf in sorted(sym_):
+            if sf == ref_sf:
+                continue
+            ncmp += 1
+            oki = sym_[sf][0] == sym_[ref_sf][0]
+            okc = sym_[sf][1] == sym_[ref_sf][1]
+            fn = vs[sf]
+            ck.ob('R07.7', 'family:%s:%s~%s' % (st, sf.lstrip('_'), ref_sf.lstrip('_')), oki and okc, 'same index expressions %s and constant tables %s' % (sorted(sym_[sf][0]), sorted(sym_[sf][1])) if oki and okc else
+                  'SIBLING DISAGREEMENT in Poseidon::%s: the %s variant indexes with %s / tables %s where the %s variant has %s / %s - the evaluators of PoseidonGate (and the in-circuit permutation) then compute different functions' %
+                  (st, sf.lstrip('_'), sorted(sym_[sf][0] - sym_[ref_sf][0]) or '-', sorted(sym_[sf][1] - sym_[ref_sf][1]) or '-', ref_sf.lstrip('_'), sorted(sym_[ref_sf][0] - sym_[sf][0]) or '-', sorted(sym_[ref_sf][1] - sym_[sf][1]) or '-'),
+                  '%s:%d' % (fn.file, fn.line))
+    ck.floor('R07.7', 'Poseidon helper variant pairs compared', ncmp, 6)
+
+
 def run(F, ck, tier):
     ck.rule('R07.1', 'every wire accessor used by the gate\'s witness generators flows into an emitted constraint in each evaluator')
     ck.rule('R07.2', 'the evaluators of one gate constrain the same wire accessors; if/else arms advance the same counters')
@@ -249,6 +351,8 @@ def run(F, ck, tier):
                   'LOOP BOUND DISAGREEMENT in %s: %s iterates over ranges of length [%s] where eval_unfiltered has [%s]: the evaluators emit different constraints (a range taken from the wrong field, e.g. bits instead of num_copies)' %
                   (g['short'], nm, ', '.join(b), ', '.join(ref)), '%s:%d' % ((g['fns'].get(nm) or g['packed']).file, (g['fns'].get(nm) or g['packed']).line))
     ck.floor('R07.6', 'evaluator pairs with compared loop bounds', nb, 20)
+    # R07.7 Poseidon helper families (what the PoseidonGate evaluators call): index expressions and constant tables agree
+    poseidon_families(F, ck)
     # R07.4
     one = [f for f in F.find('StridedConstraintConsumer::one', crate='plonky2')]
     if len(one) != 1:
